@@ -50,6 +50,12 @@ G_SUBSET = clause(UG, 'raises:subset_of_inspect', ['C07'], 'P')
 G_UP = clause(UG, 'post:upgraded', ['C07', 'C15'], 'P')
 G_USED = clause(UG, 'post:forger_result_used', ['C04'], 'P')
 A_ONLY = clause(UA_, 'raises:only_UnknownForwards', ['C07', 'C15'], 'P')
+UW = '_autoforwards.forward_signatures'
+W_RAISE = clause(UW, 'raises:callee_failures_fall_back', ['C07', 'C06', 'C15'], 'P',
+                 'an unresolvable callee, a ValueError/TypeError of its retrieval or of forwards() becomes UnknownForwards')
+W_ELEM = clause(UW, 'post:each_call_forwards_with_its_own_shape', ['C06', 'C05'], 'P',
+                'one element per call that uses a star parameter, = forwards(sig, forged(callee, args, kwargs), number of positionals '
+                '(-1 through functools.partial), *keyword names, the use/hide flags OF THAT CALL, partial=...); others skipped')
 D_GUARD = clause(UD, 'frame:guard_restored', ['C16'], 'P')
 D_ATTR = clause(UD, 'raises:AttributeError_iff_computing', ['C16', 'C13'], 'P')
 
@@ -217,6 +223,75 @@ def make_runner(mode, shape=DEF_SHAPES[0], node='FunctionDef', kind='function', 
             for o in objs:
                 o.snapshot()
             harness.run_unit(I, ma.ns['autoforwards_ast'], [f, SymNode('FunctionDef'), up], [], r)
+        elif mode == 'fwd':
+            # forward_signatures over two recorded calls whose flags / argument counts are symbolic
+            Call = ma.ns['Call']
+            Arg = ma.ns['Arg']
+            UFw = UF_cls
+            URN = ma.ns['UnresolvableName']
+            up = mk_sig(I, ctx, 'u', (0, 1, 1, 0, 1), tracked=False, annotations=False).sig
+            callee_sigs = [mk_sig(I, ctx, 'c%d' % j, (0, 1, 0, 0, 0), tracked=False, annotations=False).sig for j in range(2)]
+            callees = [new_obj('callee%d' % j) for j in range(2)]
+            calls = []
+            for j in range(2):
+                fl = {k: SymBool(z3.Bool('%s_%d' % (k, j))) for k in ('use_varargs', 'use_varkwargs', 'hide_args', 'hide_kwargs')}
+                marker = I.instantiate(ma.ns['Name'], ['callee%d' % j], [])
+                nargs = 1 if ctx.decide(z3.Bool('one_positional_%d' % j)) else 0
+                fwdargs = [I.instantiate(Arg, ['p%d' % j], [])] * nargs
+                kw = SymDict()
+                if ctx.decide(z3.Bool('one_keyword_%d' % j)):
+                    kw.items_ = [('kw%d' % j, I.instantiate(Arg, ['q%d' % j], []))]
+                calls.append(dict(flags=fl, marker=marker, nargs=nargs, kw=kw,
+                                  rec=Call(marker, fwdargs, kw, None, None, fl['use_varargs'], fl['use_varkwargs'], fl['hide_args'], fl['hide_kwargs'])))
+            same_callee = ctx.decide(z3.Bool('both_calls_same_callee'))
+            if same_callee:
+                # the two calls name the same callee with the same explicit arguments: only the star usage differs
+                calls[1]['marker'] = calls[0]['marker']
+                calls[1]['rec'] = calls[1]['rec']._replace(wrapped=calls[0]['marker'], args=calls[0]['rec'].args, kwargs=calls[0]['rec'].kwargs)
+                calls[1]['nargs'], calls[1]['kw'] = calls[0]['nargs'], calls[0]['kw']
+            env['calls'] = calls
+            env['fw_calls'] = []
+            env['yielded'] = []
+
+            def rn_summary(interp_, clo, args, kwpairs):
+                obj = args[0]
+                unknown = dict(kwpairs).get('unknown', args[3] if len(args) > 3 else False)
+                for j, c in enumerate(calls):
+                    if obj is c['marker']:
+                        if ctx.decide(ctx.fresh('unresolvable_callee', z3.BoolSort())):
+                            if unknown:
+                                return I.instantiate(ma.ns['Unknown'], [obj], [])
+                            raise I.make_exc(I.instantiate(URN, [obj], []))
+                        return callees[0 if same_callee else j]
+                if unknown:
+                    return I.instantiate(ma.ns['Unknown'], [obj], [])
+                raise I.make_exc(I.instantiate(URN, [obj], []))
+            I.call_hooks['_autoforwards:resolve_name'] = rn_summary
+
+            def forged_summary(interp_, clo, args, kwpairs):
+                # contract of forged_signature for the callee: an upgraded signature, or whatever its forger / inspect raise
+                may_raise(interp_, 'forged_signature(callee)')
+                return callee_sigs[callees.index(args[0])] if args[0] in callees else callee_sigs[0]
+            I.call_hooks['_specifiers:forged_signature'] = forged_summary
+
+            def forwards_summary(interp_, clo, args, kwpairs):
+                env['fw_calls'].append((list(args), dict((k, v) for k, v in kwpairs)))
+                if ctx.decide(ctx.fresh('forwards_incompatible', z3.BoolSort())):
+                    raise I.make_exc(I.instantiate(ms.ns['IncompatibleSignatures'], [args[0], ()], []))
+                res = Opaque('forwards result #%d' % len(env['fw_calls']))
+                env['fw_calls'][-1][1]['__result__'] = res
+                return res
+            I.call_hooks['_signatures:forwards'] = forwards_summary
+            f = new_obj('func')
+            for o in objs:
+                o.snapshot()
+            try:
+                g = I.call(ma.ns['forward_signatures'], [f, [c['rec'] for c in calls], (), SymDict(), up], [])
+                for x in g:
+                    env['yielded'].append(x)
+                r.outcome, r.value = 'return', None
+            except PyExc as e:
+                r.outcome, r.exc = 'raise', e
         elif mode == 'as_forged':
             spm = I.module('sigtools.specifiers')
             inst = new_obj('instance', 'instance')
@@ -286,6 +361,35 @@ def vcs(env, want):
     elif mode == 'af_ast':
         if r.outcome == 'raise' and on(A_ONLY):
             out.append(VC(A_ONLY.full + ':' + r.exc.typname, [], is_unknown_forwards(I, r.exc), A_ONLY.props))
+    elif mode == 'fwd':
+        calls = env['calls']
+        if r.outcome == 'raise' and on(W_RAISE):
+            t = r.exc.typ
+            if getattr(t, '_vf_symbolic_exc', False):
+                # only an exception of the callee's retrieval that is neither a ValueError nor a TypeError may pass through
+                ok = z3.And(z3.BoolVal(getattr(r.exc, 'origin', '') == 'forged_signature(callee)'),
+                            z3.Not(t.is_class(I, 'ValueError')), z3.Not(t.is_class(I, 'TypeError')))
+            else:
+                ok = is_unknown_forwards(I, r.exc)
+            out.append(VC(W_RAISE.full + ':' + r.exc.typname, [], ok, W_RAISE.props))
+        if on(W_ELEM):
+            # the calls that use a star parameter, in order, up to the point where the generator stopped
+            flagv = [{k: ctx.decide(v.t) for k, v in c['flags'].items()} for c in calls]
+            using = [j for j, fv in enumerate(flagv) if fv['use_varargs'] or fv['use_varkwargs']]
+            fw = env['fw_calls']
+            ok = len(env['yielded']) <= len(using) and (r.outcome == 'raise' or len(env['yielded']) == len(using))
+            ok = ok and len(fw) >= len(env['yielded'])
+            for k, y in enumerate(env['yielded']):
+                if not ok:
+                    break
+                j = using[k]
+                a, kw = fw[k]
+                c = calls[j]
+                names = [x for x in a[3:]]
+                ok = (y is kw.get('__result__') and len(a) >= 3 and a[2] == c['nargs'] and names == [kk for kk, _ in c['kw'].items_] and
+                      all(kw.get(fk) is c['flags'][fk] or kw.get(fk) == flagv[j][fk] for fk in ('use_varargs', 'use_varkwargs', 'hide_args', 'hide_kwargs')) and
+                      kw.get('partial') in (False, 0))
+            out.append(VC(W_ELEM.full, [], z3.BoolVal(bool(ok)), W_ELEM.props))
     elif mode == 'as_forged':
         desc, inst = env['desc'], env['inst']
         now_in = inst in desc._d['currently_computing']
